@@ -1079,6 +1079,18 @@ fn execute_item_enforced(
     }
 }
 
+/// Verification-only seam (feature `echo_verif`): the real per-item execution of the worker loop.
+#[cfg(feature = "echo_verif")]
+pub(crate) fn echo_verif_execute_item_enforced(
+    store: &GraphStore,
+    item: &ExecItem,
+    idx: usize,
+    unit: &WorkUnit,
+    delta: TickDelta,
+) -> Result<TickDelta, PoisonedDelta> {
+    execute_item_enforced(store, item, idx, unit, delta)
+}
+
 #[cfg(test)]
 mod tests {
     use super::{
